@@ -62,12 +62,14 @@ FLOORS = {"quick": {"requests_through_connections_whose_adapter_supplies_the_id"
                     "connections_described_between_requests": 180, "rounds_where_the_creating_thread_sends_requests": 6,
                     "distinct_nontrivial": 20, "requests_observed": 5000, "yields_injected": 2000,
                     "offsets_where_A_was_held": 40, "scenarios_where_B_ran_inside_gap": 10,
-                    "distinct_interleavings": 10, "long_run_requests": 10001},
+                    "distinct_interleavings": 10, "long_run_requests": 10001,
+                    "holds_of_several_seconds_inside_the_generator": 1, "calls_refused_before_anything_was_sent": 20},
           "thorough": {"requests_through_connections_whose_adapter_supplies_the_id": 1700,
                        "connections_described_between_requests": 740, "rounds_where_the_creating_thread_sends_requests": 12,
                        "distinct_nontrivial": 300, "requests_observed": 200000, "yields_injected": 100000,
                        "offsets_where_A_was_held": 1500, "scenarios_where_B_ran_inside_gap": 400,
-                       "distinct_interleavings": 400, "long_run_requests": 100001}}
+                       "distinct_interleavings": 400, "long_run_requests": 100001,
+                       "holds_of_several_seconds_inside_the_generator": 4, "calls_refused_before_anything_was_sent": 500}}
 LEVEL_TEXT = ("Runtime monitoring of real threads: an offline checker compares the recorded request history with a "
               "sequential counter model after (1) stress rounds with injected yields inside the id generator and (2) "
               "a systematic sweep that forces one pre-emption at every bytecode offset of the generator. The evidence "
@@ -556,8 +558,9 @@ def independent_roots(ctx):
             judge_history(ctx, op.reqs, None, [], case)
 
 
-def offset_scenario(ctx, off, variant):
-    """thread A is held at bytecode offset `off` of the id generator while B issues a request"""
+def offset_scenario(ctx, off, variant, hold=0.05):
+    """thread A is held at bytecode offset `off` of the id generator while B issues a request; A is held for
+    `hold` seconds at most (a thread may be descheduled for seconds on a loaded or suspended machine)"""
     made = {}
 
     def make():
@@ -579,7 +582,7 @@ def offset_scenario(ctx, off, variant):
         if offset == off and not state['hit'] and threading.get_ident() == a_tid[0]:
             state['hit'] = True
             go_b.set()
-            state['b_in_gap'] = b_done.wait(0.05)   # steering only, never a verdict
+            state['b_in_gap'] = b_done.wait(hold)   # steering only, never a verdict
 
     mon.use_tool_id(TOOL, "vf-c16")
     mon.register_callback(TOOL, mon.events.INSTRUCTION, on_instr)
@@ -638,13 +641,13 @@ def offset_scenario(ctx, off, variant):
     try:
         tb.start()
         ta.start()
-        ta.join(30)
-        tb.join(30)
+        ta.join(30 + hold)
+        tb.join(30 + hold)
     finally:
         mon.set_local_events(TOOL, gen_code, 0)
         mon.register_callback(TOOL, mon.events.INSTRUCTION, None)
         mon.free_tool_id(TOOL)
-    case = {"workload": "offset", "offset": off, "variant": variant}
+    case = {"workload": "offset", "offset": off, "variant": variant, "hold": hold}
     if ta.is_alive() or tb.is_alive():
         ctx.inconclusive_note(f"offset scenario {off} did not finish")
         return
@@ -653,6 +656,8 @@ def offset_scenario(ctx, off, variant):
         return
     if state['hit']:
         ctx.count("offsets_where_A_was_held")
+        if hold > 1:
+            ctx.count("holds_of_several_seconds_inside_the_generator")
     if state['b_in_gap']:
         ctx.count("scenarios_where_B_ran_inside_gap")
         ctx.nontrivial(f"offset:{off}:{variant}")
@@ -680,6 +685,14 @@ def run_shard(ctx):
         for off in offsets:
             ctx.evaluated()
             offset_scenario(ctx, off, variant)
+    if ctx.shard == 0 or ctx.tier != "quick":
+        # a thread that stays for seconds between reading and advancing the counter (every other thread has to
+        # wait for it, however long it takes)
+        names = [(i.offset, i.argval) for i in dis.get_instructions(gen_code)]
+        touching = [k for k, (_, name) in enumerate(names) if name == '_cur_req_id']
+        k = touching[0] + 1 + ctx.shard % 2 if touching else len(names) // 2
+        ctx.evaluated()
+        offset_scenario(ctx, names[min(k, len(names) - 1)][0], variants[(ctx.shard + ctx.seed) % 3], hold=6.5)
     if ctx.shard == 0:
         ctx.sample({"workload": "offset sweep", "offsets": offsets[:12] + ["..."], "variants": variants})
 
@@ -697,4 +710,4 @@ def replay(ctx, case):
             stress_round(ctx, case["seed"] + k * 7919, set(), 1)
     else:
         for _ in range(3):
-            offset_scenario(ctx, case["offset"], case["variant"])
+            offset_scenario(ctx, case["offset"], case["variant"], case.get("hold", 0.05))
